@@ -13,7 +13,8 @@ DRV = os.path.join(vbuild.VERIF, "harness", "drv_threads.cpp")
 TRANSLATORS = [("globals", os.path.join(vbuild.VERIF, "translate", "globals.py")),
                ("storagecfg", os.path.join(vbuild.VERIF, "translate", "storagecfg.py"))]
 F16_SIG = "tsan-race:n_storage_objects_created_/deleted_"
-TSAN_ENV = {"TSAN_OPTIONS": "halt_on_error=0:exitcode=0:report_signal_unsafe=0:history_size=4"}
+TSAN_ENV = {"TSAN_OPTIONS": "halt_on_error=0:exitcode=0:report_signal_unsafe=0:history_size=4",
+            "OMP_WAIT_POLICY": "passive", "OMP_DYNAMIC": "false"}
 
 
 def sh(cmd, inp=None, timeout=None, env=None):
@@ -44,6 +45,12 @@ def build(thread_safe):
     defs = ["ADEPT_STORAGE_THREAD_SAFE"] if thread_safe else []
     return vbuild.build("threads", DRV, defines=defs, cxx="clang++-14", san="tsan",
                         extra=["-std=c++17", "-U" + vbuild.GUARD], link=["-pthread"], no_openmp=True)
+
+
+def build_omp():
+    """g++ -fopenmp build without ThreadSanitizer (libgomp is not instrumented): the workloads run by the members of one
+    OpenMP team; ASan/UBSan stay on as observers"""
+    return vbuild.build("threads-omp", DRV, defines=[], san="none", extra=["-std=c++17", "-U" + vbuild.GUARD], link=["-pthread"])
 
 
 # ------------------------------------------------------------------ TSan reports
@@ -140,7 +147,7 @@ def judge_workload(res, mode, T):
             for key in ("owner_wrong", "stackless_nonzero", "idle_threads_nonzero", "main_nonzero"):
                 if d.get(key) != "0":
                     bad.append(("active_stack() observation failed: %s=%s (%s)" % (key, d.get(key), l), "active-stack:" + key))
-            for key in ("owner_samples", "stackless_samples", "idle_threads_samples", "main_samples"):
+            for key in ("owner_samples", "stackless_samples") + (() if mode == "c12omp" else ("idle_threads_samples", "main_samples")):
                 if int(d.get(key, "0")) <= 0:
                     bad.append(("no active_stack() sample was taken (%s)" % key, "active-stack:no-sample"))
         elif l.startswith("stor "):
@@ -149,6 +156,11 @@ def judge_workload(res, mode, T):
             for key in ("links_before", "links_after", "live_after"):
                 if key in d and d[key] != d.get("expect"):
                     bad.append(("%s=%s, expected %s (%s)" % (key, d[key], d.get("expect"), l), "storage-count"))
+            if "created_par" in d:
+                # exact global bookkeeping: the parallel phase created/deleted as many Storage objects as the solo phase
+                if not (d["created_par"] == d.get("deleted_par") == d.get("created_solo")):
+                    bad.append(("storage counters after the join: created %s / deleted %s in the parallel phase, the same workloads run "
+                                "alone created %s" % (d["created_par"], d.get("deleted_par"), d.get("created_solo")), "storage-count"))
             if "created" in d and d["created"] != d.get("deleted"):
                 bad.append(("storage objects created=%s deleted=%s after join" % (d["created"], d["deleted"]), "storage-count"))
             if "not_freed_exactly_once" in d and (d["not_freed_exactly_once"] != "0" or d.get("exceptions") != "0"):
@@ -194,7 +206,7 @@ def run_many(ctx, exe, label, mode, cases, workers=4):
 
 
 def replay_workload(ctx, r):
-    exe = build(r["build"] == "thread-safe")
+    exe = build_omp() if r["build"] == "openmp-team" else build(r["build"] == "thread-safe")
     run_many(ctx, exe, r["build"], r["mode"], [(r["threads"], r["workload_seed"], r["rounds"])], workers=1)
 
 
